@@ -29,6 +29,18 @@ def gen_cases():
         lines.append("end")
         cases.append(lines)
         i += 1
+    # timers that re-arm themselves from their callback and are then cancelled / disabled from outside: the second
+    # dispatch must not be limited by (or fire) the arming that was cancelled
+    for timeout, timer, sources in itertools.product(
+            ["15", "300", "none"],
+            ["-5 rearm 40 cancel", "-5 rearm 40 disable", "-5 rearm 40", "8 rearm 30 cancel", "8 rearm 30 disable", "-5 rearm 0 cancel"],
+            [[], ["ping"]]):
+        lines = ["case t%d" % i, "timeout " + timeout, "timer " + timer] + ["source " + s for s in sources]
+        if timeout == "none":
+            lines.append("waker 60")
+        lines.append("end")
+        cases.append(lines)
+        i += 1
     return cases
 
 
